@@ -92,6 +92,38 @@ Fixpoint hex_dec (s : string) : option string :=
 Definition opt_ores {A} (o : option A) : ores A := match o with Some a => OOk a | None => OFail end.
 
 (* ------------------------------------------------------------------ *)
+(* decimal numerals                                                     *)
+(* ------------------------------------------------------------------ *)
+
+Definition digit_val (c : ascii) : option N :=
+  let n := N_of_ascii c in
+  (if (48 <=? n) && (n <=? 57) then Some (n - 48) else None)%N.
+
+(* all characters are digits: value and number of digits *)
+Fixpoint digits_val (s : string) (acc : N) (cnt : nat) : option (N * nat) :=
+  match s with
+  | EmptyString => Some (acc, cnt)
+  | String c r => match digit_val c with
+                  | Some d => digits_val r (acc * 10 + d)%N (S cnt)
+                  | None => None
+                  end
+  end.
+
+Definition nat_dec (s : string) : option N :=
+  match s with
+  | EmptyString => None
+  | _ => match digits_val s 0%N 0%nat with Some (n, _) => Some n | None => None end
+  end.
+
+(* optional sign, then at least one digit *)
+Definition signed_dec (s : string) : option Z :=
+  match s with
+  | String "-" r => match nat_dec r with Some n => Some (- Z.of_N n)%Z | None => None end
+  | String "+" r => match nat_dec r with Some n => Some (Z.of_N n) | None => None end
+  | _ => match nat_dec s with Some n => Some (Z.of_N n) | None => None end
+  end.
+
+(* ------------------------------------------------------------------ *)
 (* tagged (non-JSON) Go values                                          *)
 (* ------------------------------------------------------------------ *)
 
@@ -237,6 +269,20 @@ Inductive fexpr :=
 | Lit (v : value)
 | Call (name : string) (args : list fexpr).
 
+
+(* AggrFunExpr (plsql.go): SUM/AVG/MIN/MAX/COUNT are parsed as aggregate functions; their result
+   passes through AsNumber, which turns the Go int COUNT returns into a float64 *)
+Definition is_aggr_name (n : string) : bool :=
+  String.eqb n "sum" || String.eqb n "avg" || String.eqb n "min" || String.eqb n "max" || String.eqb n "count".
+
+Definition as_number (v : value) : value :=
+  match v with
+  | VObj [(k, VStr d)] =>
+      if String.eqb k tag_int then
+        match signed_dec d with Some z => VNum (float_of_Z z) | None => v end
+      else v
+  | _ => v
+  end.
 
 Section Funcs.
   Variable V : variant.
@@ -638,7 +684,10 @@ Section Funcs.
     | None => Err
     end.
 
-  (* FuncArgReader: evaluate left to right, stop at the first error *)
+  (* FunExpr / AggrFunExpr with FuncArgReader: evaluate the arguments left to right, stop at the
+     first error, call.  Not modelled (the generators keep away from it): the per-query memo of
+     aggregate calls, AggrFuncArgReader's special reading of column arguments, the ASYNC / SPIN /
+     ONCE / GLOBAL qualifiers and AWAIT. *)
   Fixpoint eval (e : fexpr) : res value :=
     match e with
     | Lit v => Ok v
@@ -648,7 +697,8 @@ Section Funcs.
                       | [] => Ok []
                       | a :: r => let! v := eval a in let! vs := args_loop r in Ok (v :: vs)
                       end) args in
-        call name vs
+        let! r := call name vs in
+        Ok (if is_aggr_name (ascii_lower name) then as_number r else r)
     end.
 
 End Funcs.
